@@ -145,6 +145,11 @@ func (h *c07h) runVarHost(j *c07job, r *rng, region string) {
 		if region != "hostvar-nilptr" && t.K == ckPtr && v0.Nil {
 			continue
 		}
+		if region == "" && c07ifaceLike(t) && r.chance(60) {
+			// interface-like targets are not copied at compile time: direct reads stay live
+			read, hostchange = "direct", true
+			write = r.pick([]string{"ptr", "viavar", "none"})
+		}
 		break
 	}
 	if !hostchange {
